@@ -367,6 +367,31 @@ func c11Reslice(r *Report, p *Prog, arch string) {
 				r.Count("reslices_"+arch, 1)
 				facts := env.FactsAt(b)
 				need := linTerm("len("+prm.Name()+")", true).Sub(hi)
+				// an earlier x[k:] or x[k] on every path to this point has already panicked unless len(x) >= k (resp. > k)
+				for _, db := range fn.Blocks {
+					if !db.Dominates(b) {
+						continue
+					}
+					for _, din := range db.Instrs {
+						if din == in {
+							break
+						}
+						switch d := din.(type) {
+						case *ssa.Slice:
+							if d.X == ssa.Value(prm) && d.High == nil && d.Low != nil {
+								if lo := env.Int(d.Low); lo.IsConst() {
+									facts = append(facts, Fact{E: linTerm("len("+prm.Name()+")", true).Sub(lo)})
+								}
+							}
+						case *ssa.IndexAddr:
+							if d.X == ssa.Value(prm) {
+								if ix := env.Int(d.Index); ix.IsConst() {
+									facts = append(facts, Fact{E: linTerm("len("+prm.Name()+")", true).Sub(ix).Sub(linConst(1))})
+								}
+							}
+						}
+					}
+				}
 				// an unexported helper may rely on its callers: use the meet of the call-site facts (parameter precondition)
 				okc := ProveNonNeg(need, facts)
 				if !okc && !token.IsExported(fn.Name()) {
